@@ -164,6 +164,18 @@ let () =
               (* the implementation-independent specification against std itself *)
               let sp = hex_of_bytes (utf8_lossy_spec (bytes_of_hex inp)) in
               if sp <> s then report_mismatch ~field:"lossy_spec_vs_std" ~model:sp ~impl:(inp ^ ":" ^ s)
+            | [_; "utf16"; inp] ->
+              hid := "decoders"; header := ""; cur := "utf16 " ^ inp;
+              let norm x = if x = "-" then "" else x in
+              let b = norm (List.nth secs 1) and s = norm (List.nth secs 2) in
+              let inp = norm inp in
+              let units = List.init (String.length inp / 4) (fun i -> n_of_int (int_of_string ("0x" ^ String.sub inp (4 * i) 4))) in
+              if b <> s then report_spec ~prop:"C14" ~pred:"from_utf16_like_std" ~detail:(inp ^ ":" ^ b ^ "_vs_std_" ^ s);
+              if b <> "err" && not (valid_utf8 (bytes_of_hex b)) then report_spec ~prop:"C14" ~pred:"from_utf16_result_valid" ~detail:(inp ^ ":" ^ b);
+              let m = (match from_utf16 units with Some bs -> norm (hex_of_bytes bs) | None -> "err") in
+              xc ("from_utf16 " ^ coq_bytes units) (match from_utf16 units with Some bs -> "Some " ^ coq_bytes bs | None -> "None");
+              if m <> b then report_mismatch ~field:"from_utf16" ~model:m ~impl:(inp ^ ":" ^ b);
+              if m <> s then report_mismatch ~field:"from_utf16_spec_vs_std" ~model:m ~impl:(inp ^ ":" ^ s)
             | [_; "utf8"; inp] ->
               hid := "decoders"; header := ""; cur := "utf8 " ^ inp;
               let b = split_ws (List.nth secs 1) and s = List.nth secs 2 in
